@@ -294,7 +294,7 @@ type evidence struct {
 	Violations  int            `json:"violations"`
 }
 
-func runDriver(prop, tier string, seed int64, from, count, nworkers int, verif, instrReport string) int {
+func runDriver(prop, tier string, seed int64, from, count, nworkers int, verif, instrReport, evName, merge string) int {
 	start := time.Now()
 	engName := propertyEngine[prop]
 	eng := engines[engName]
@@ -442,11 +442,22 @@ func runDriver(prop, tier string, seed int64, from, count, nworkers int, verif, 
 			}
 		}
 	}
+	if merge != "" {
+		if b, err := os.ReadFile(merge); err == nil {
+			var side map[string]any
+			if json.Unmarshal(b, &side) == nil {
+				cov["side_run"] = side
+			}
+		}
+	}
+	if evName == "" {
+		evName = prop
+	}
 	ev := evidence{PropertyID: prop, Tier: tier, Seed: seed, Level: "exploration", Coverage: cov,
 		Assumptions: assumptions[prop], WallS: wall, Violations: violations}
 	_ = os.MkdirAll(filepath.Join(verif, "evidence"), 0o755)
 	eb, _ := json.MarshalIndent(ev, "", " ")
-	if err := os.WriteFile(filepath.Join(verif, "evidence", prop+".json"), eb, 0o644); err != nil {
+	if err := os.WriteFile(filepath.Join(verif, "evidence", evName+".json"), eb, 0o644); err != nil {
 		fmt.Fprintln(os.Stderr, "sim: cannot write evidence:", err)
 		return 2
 	}
